@@ -166,6 +166,13 @@ def nested_programs(tier, hi):
     P, Q = ("leaf", "P"), ("leaf", "Q")
     progs += [("chain", P, Q), ("chain", Q, P), ("dedup", ("chain", P, Q)), ("chain", ("sel", P, K), Q),
               ("proj", ("chain", P, Q), ("a",)), ("chain", ("proj", X, ("a",)), ("proj", Q, ("a",))), ("join", ("chain", P, Q), Z, None)]
+    # one leaf (one payload object) used in two branches of the same tree: compiling one branch must not leak into the other
+    SZ = ("sel", Z, ("gt", D, ("lit", "$k")))
+    JX = ("proj", ("join", X, SZ, None), ("a", "b", "v"))
+    progs += [("chain", JX, X), ("chain", X, JX), ("chain", ("proj", ("join", SZ, X, None), ("a", "b", "v")), ("sel", X, ("lt", A, B))),
+              ("chain", ("proj", ("join", ("sel", X, K), Z, None), ("a", "b", "v")), X), ("dedup", ("chain", JX, ("chain", X, Y))),
+              ("chain", ("proj", ("join", ("join", X, Z, None), ("sel", W, ("lt", A, B)), None), ("a", "b", "v")), X),
+              ("chain", ("proj", ("join", X, Z, ("lt", B, D)), ("a", "b", "v")), X)]
     return [(p, {"$k": [None, None]} if "$k" in repr(p) else {}, []) for p in progs]
 
 
